@@ -28,7 +28,8 @@ TBeginTxL == Step(Is("BeginTxL") /\ ~tw[Ev.t].s.intx /\ tw' = [tw EXCEPT ![Ev.t]
 TOp      == Step(Ev.op \in InTxOps /\ tw[Ev.t].s.intx /\ CanOp(tw[Ev.t].s, Ev)
                  /\ tw' = [tw EXCEPT ![Ev.t].s = ApplyOp(@, Ev)] /\ UNCHANGED disk /\ Logged)
 TEndTx   == Step(Ev.op \in {"Finalise", "IntermediateRoot"} /\ tw[Ev.t].s.intx
-                 /\ tw' = [tw EXCEPT ![Ev.t] = [s |-> Finalise(@.s), b |-> AfterFinalise(@.b, @.s)]] /\ UNCHANGED disk /\ Logged)
+                 /\ tw' = [tw EXCEPT ![Ev.t] = [s |-> IF Is("Finalise") THEN Finalise(@.s) ELSE IntermediateRoot(@.s),
+                                                 b |-> AfterFinalise(@.b, @.s)]] /\ UNCHANGED disk /\ Logged)
 TCommit  == Step(Is("Commit") /\ LET f == Finalise(tw[Ev.t].s) IN
                     /\ Ev.world = f.w
                     /\ disk' = disk \cup {f.w}
